@@ -562,6 +562,10 @@ Definition special_float (s : bytes) : bool :=
   let l := map to_lower (unsigned s) in
   bytes_eqb l [105;110;102] || bytes_eqb l [105;110;102;105;110;105;116;121] || bytes_eqb l [110;97;110].
 Definition not_float (s : bytes) : bool := negb (forallb float_char s) && negb (special_float s).
+(* texts that parse to NaN / to an infinity *)
+Definition nan_text (s : bytes) : bool := bytes_eqb (map to_lower (unsigned s)) [110;97;110].
+Definition inf_text (s : bytes) : bool :=
+  let l := map to_lower (unsigned s) in bytes_eqb l [105;110;102] || bytes_eqb l [105;110;102;105;110;105;116;121].
 
 Definition apply_filter (v : value) (f : gfilter) : fres :=
   match f, v with
@@ -574,6 +578,7 @@ Definition apply_filter (v : value) (f : gfilter) : fres :=
   | FNumber, _ => FDrop
   | FScale k, VBytes s =>
       if not_float s then FDrop
+      else if nan_text s || (inf_text s && (k =? 0)%Z) then FDrop      (* the product is NaN: the filter fails *)
       else if int_text s && (List.length s <=? 15)%nat && smallk k && small (int_of_text s * k) then FVal (VInt (int_of_text s * k))
       else FUnmodelled
   | FScale k, VInt z =>
